@@ -692,3 +692,234 @@ Proof.
   - left. split; [auto|]. simpl. exact N.
   - right. repeat split; auto; lia.
 Qed.
+
+(* ---------- C14.3  a yield per loop iteration, call and event ---------- *)
+(* one-step unfoldings (all by computation) *)
+Lemma exec_block_unfold f P e l : exec_block (S f) P e l = (let* _ := tick in exec_stmts f P e l).
+Proof. reflexivity. Qed.
+Lemma exec_stmts_unfold f P e s t :
+  exec_stmts (S f) P e (s :: t) =
+  (let* (sig, e1) := exec_stmt f P e s in if is_ctl sig then ret (sig, e1) else exec_stmts f P e1 t).
+Proof. reflexivity. Qed.
+Lemma exec_cond_unfold f P e c body :
+  exec_cond (S f) P e c body =
+  (let* l := eval_expr f P ([] :: e) c in
+   let* v := load l in
+   match v with
+   | HBool true => let* (sig, e2) := exec_block f P ([] :: e) body in ret (Some sig, tl e2)
+   | HBool false => ret (None, e)
+   | _ => internal "conditional not a bool"
+   end).
+Proof. reflexivity. Qed.
+Lemma exec_while_unfold f P e c body :
+  exec_while (S f) P e c body =
+  (let* (r, e1) := exec_cond f P e c body in
+   match r with
+   | None => ret (SigNone, e1)
+   | Some SigBreak => ret (SigNone, e1)
+   | Some (SigReturn v) => ret (SigReturn v, e1)
+   | Some SigNone => exec_while f P e1 c body
+   end).
+Proof. reflexivity. Qed.
+
+(* ranger.next, named (it is an atom: it never ticks) *)
+Definition ranger_next (rg : ranger) : M (option (loc * ranger)) :=
+  match rg with
+  | RgStep cur stop step =>
+      if (PrimFloat.ltb 0 step && PrimFloat.leb stop cur) || (PrimFloat.ltb step 0 && PrimFloat.leb cur stop)
+      then ret None
+      else let* l := alloc (HNum cur) in ret (Some (l, RgStep (cur + step)%float stop step))
+  | RgArr a cur =>
+      let* v := load a in
+      match v with
+      | HArr els => match nth_error els cur with
+                    | Some l => ret (Some (l, RgArr a (S cur)))
+                    | None => ret None end
+      | _ => crash "range over non-array"
+      end
+  | RgStr s cur =>
+      match nth_error s cur with
+      | Some c => let* l := alloc (HStr [c]) in ret (Some (l, RgStr s (S cur)))
+      | None => ret None
+      end
+  | RgMap m todo =>
+      let* v := load m in
+      match v with
+      | HMap om =>
+          (fix next (ks : list str) : M (option (loc * ranger)) :=
+             match ks with
+             | [] => ret None
+             | k :: t => if ohas k om then let* l := alloc (HStr k) in ret (Some (l, RgMap m t))
+                         else next t
+             end) todo
+      | _ => crash "range over non-map"
+      end
+  end.
+
+Lemma exec_for_unfold f P e var rg body :
+  exec_for (S f) P e var rg body =
+  (let* nx := ranger_next rg in
+   match nx with
+   | None => ret (SigNone, e)
+   | Some (l, rg') =>
+       let* e1 := update_var var l e in
+       let* (sig, e2) := exec_block f P e1 body in
+       match sig with
+       | SigBreak => ret (SigNone, e2)
+       | SigReturn v => ret (SigReturn v, e2)
+       | SigNone => exec_for f P e2 var rg' body
+       end
+   end).
+Proof. reflexivity. Qed.
+
+Lemma atom_ranger_next rg : atom (ranger_next rg).
+Proof.
+  destruct rg; simpl; try solve [atom_tac].
+  apply atom_bind; [atom_tac|intro v]. destruct v; try solve [atom_tac].
+  induction todo; simpl; atom_tac.
+Qed.
+#[global] Hint Resolve atom_ranger_next : atomdb.
+
+(* a computation that starts with the eval prologue *)
+Definition TickFirst {A} (m : M A) : Prop :=
+  exists K, Built K /\ forall s, m s = bindM tick (fun _ => K) s.
+
+Lemma tick_counts s r s' : tick s = (r, s') ->
+  (st_stopped s = true /\ r = Er EStopped /\ s' = s) \/ (st_stopped s = false /\ st_yields s' = S (st_yields s)).
+Proof.
+  unfold tick. destruct (st_stopped s); intro H.
+  - left. inversion H; auto.
+  - right. destruct (_ && _); inversion H; subst; auto.
+Qed.
+
+Lemma tick_first_yields A (m : M A) s r s' : TickFirst m -> m s = (r, s') ->
+  (st_stopped s = true /\ r = Er EStopped /\ s' = s) \/ (st_stopped s = false /\ S (st_yields s) <= st_yields s').
+Proof.
+  intros (K & HK & E) H. rewrite E in H. unfold bindM in H.
+  destruct (tick s) as [[u|e] s1] eqn:T; destruct (tick_counts _ _ _ T) as [(St & Hr & Hs) | (St & Y)];
+    try discriminate.
+  - right. split; [auto|]. apply (built_mono _ _ HK) in H. lia.
+  - left. inversion H; inversion Hr; subst; auto.
+  - right. inversion H; subst. split; [auto|lia].
+Qed.
+
+Lemma tick_first_ok A (m : M A) s a s' : TickFirst m -> m s = (Ok a, s') -> S (st_yields s) <= st_yields s'.
+Proof. intros T H. destruct (tick_first_yields _ _ _ _ _ T H) as [(_ & ? & _)|(_ & ?)]; [discriminate|auto]. Qed.
+
+Lemma exec_block_tick_first f P e l : TickFirst (exec_block (S f) P e l).
+Proof. exists (exec_stmts f P e l). split; [auto|]. intro s. reflexivity. Qed.
+
+Lemma eval_expr_tick_first f P e x : TickFirst (eval_expr (S f) P e x).
+Proof.
+  eexists. split. 2:{ intro s. cbn [eval_expr]. reflexivity. }
+  destruct (built_all f) as (IH1 & IH2 & IH3 & IH4 & IH5 & IH6 & IH7 & IH8 & IH9).
+  destruct x; try solve [built_tac].
+  apply B_bind; [built_tac|intro d]. apply B_bind; [|intros; built_tac].
+  induction pairs as [|[k a] ps IHps]; simpl; built_tac.
+Qed.
+
+Lemma exec_stmt_tick_first f P e x : TickFirst (exec_stmt (S f) P e x).
+Proof.
+  eexists. split. 2:{ intro s. cbn [exec_stmt]. reflexivity. }
+  destruct (built_all f) as (IH1 & IH2 & IH3 & IH4 & IH5 & IH6 & IH7 & IH8 & IH9).
+  destruct x; try solve [built_tac].
+  revert e. induction conds as [|[c body] cs IHcs]; intro e; simpl; built_tac.
+Qed.
+
+(* every completed evaluation of an expression, a statement or a block yielded at least once *)
+Theorem eval_expr_yields n P e x s a s' : eval_expr n P e x s = (Ok a, s') -> S (st_yields s) <= st_yields s'.
+Proof. destruct n; [discriminate|]. apply tick_first_ok, eval_expr_tick_first. Qed.
+Theorem exec_stmt_yields n P e x s a s' : exec_stmt n P e x s = (Ok a, s') -> S (st_yields s) <= st_yields s'.
+Proof. destruct n; [discriminate|]. apply tick_first_ok, exec_stmt_tick_first. Qed.
+Theorem exec_block_yields n P e body s a s' :
+  exec_block n P e body s = (Ok a, s') -> S (st_yields s) <= st_yields s'.
+Proof. destruct n; [discriminate|]. apply tick_first_ok, exec_block_tick_first. Qed.
+
+(* ... and a block that is entered while the flag is down yields before its first statement,
+   however it ends (normally, with an error, stopped, or out of fuel further down) *)
+Theorem exec_block_yields_first f P e body s :
+  exec_block (S f) P e body s =
+  if st_stopped s then (Er EStopped, s)
+  else
+    let raised := match st_stop_at s with Some k => Nat.eqb k (st_yields s) | None => false end in
+    let s1 := upd_yield (S (st_yields s)) raised s in
+    if raised && st_check_after_yield s then (Er EStopped, s1) else exec_stmts f P e body s1.
+Proof.
+  rewrite exec_block_unfold. unfold bindM, tick. destruct (st_stopped s); [reflexivity|].
+  cbv zeta. destruct (_ && _); reflexivity.
+Qed.
+
+Lemma mono_yields A (m : M A) s r s' : Built m -> m s = (r, s') -> st_yields s <= st_yields s'.
+Proof. intros Hb E. apply (built_mono _ _ Hb _ _ _ E). Qed.
+
+(* one iteration of a while loop: the condition and the body block each yield *)
+Theorem while_iteration_yields f P e c body s e1 s1 :
+  exec_cond f P e c body s = (Ok (Some SigNone, e1), s1) ->
+  exec_while (S f) P e c body s = exec_while f P e1 c body s1 /\ st_yields s + 2 <= st_yields s1.
+Proof.
+  intro H. split.
+  - rewrite exec_while_unfold. unfold bindM. now rewrite H.
+  - destruct f; [discriminate|]. rewrite exec_cond_unfold in H. unfold bindM in H.
+    destruct (eval_expr f P ([] :: e) c s) as [[l|?] s2] eqn:E1; [|discriminate].
+    apply eval_expr_yields in E1.
+    destruct (load l s2) as [[v|?] s3] eqn:E2; [|discriminate].
+    assert (st_yields s2 <= st_yields s3) by (eapply mono_yields; [|eauto]; apply B_atom; auto with atomdb).
+    destruct v as [| |[|]| | | |]; try discriminate.
+    destruct (exec_block f P ([] :: e) body s3) as [[[sig e2]|?] s4] eqn:E3; [|discriminate].
+    apply exec_block_yields in E3. inversion H; subst. lia.
+Qed.
+
+(* one iteration of a for loop *)
+Theorem for_iteration_yields f P e var rg body s l rg' s1 e1 s2 e2 s3 :
+  ranger_next rg s = (Ok (Some (l, rg')), s1) ->
+  update_var var l e s1 = (Ok e1, s2) ->
+  exec_block f P e1 body s2 = (Ok (SigNone, e2), s3) ->
+  exec_for (S f) P e var rg body s = exec_for f P e2 var rg' body s3 /\ S (st_yields s) <= st_yields s3.
+Proof.
+  intros H1 H2 H3. split.
+  - rewrite exec_for_unfold. unfold bindM. now rewrite H1, H2, H3.
+  - apply exec_block_yields in H3.
+    assert (st_yields s <= st_yields s1) by (eapply mono_yields; [|eauto]; apply B_atom; auto with atomdb).
+    assert (st_yields s1 <= st_yields s2) by (eapply mono_yields; [|eauto]; apply B_atom; auto with atomdb).
+    lia.
+Qed.
+
+(* a completed call of a user-defined function (the name is neither `test` nor a built-in) *)
+Theorem call_yields n P e name args s r s' :
+  str_eqb name n_test = false -> (forall vals, builtin name e vals = None) ->
+  eval_call n P e name args s = (Ok r, s') -> S (st_yields s) <= st_yields s'.
+Proof.
+  intros Nt Nb H. destruct n; [discriminate|]. cbn [eval_call] in H. unfold bindM at 1 in H.
+  destruct (eval_exprs n P e args s) as [[vals|?] s1] eqn:E1; [|discriminate].
+  apply (mono_yields _ _ _ _ _ (built_eval_exprs _ _ _ _)) in E1.
+  rewrite Nt, Nb in H.
+  destruct (existsb _ _); [discriminate|].
+  destruct (find_func name (p_funcs P)) as [fd|]; [|discriminate].
+  unfold bindM at 1 in H.
+  destruct (bind_params (fn_params fd) vals [] s1) as [[[fr rest]|?] s2] eqn:E2; [|discriminate].
+  assert (st_yields s1 <= st_yields s2) by (eapply mono_yields; [|eauto]; apply B_atom; auto with atomdb).
+  unfold bindM at 1 in H.
+  match type of H with (let (_, _) := ?m s2 in _) = _ =>
+    assert (Hm : atom m) by atom_tac; destruct (m s2) as [[fr'|?] s3] eqn:E3; [|discriminate] end.
+  assert (st_yields s2 <= st_yields s3) by (eapply mono_yields; [|eauto]; apply B_atom; auto).
+  unfold bindM at 1 in H.
+  destruct (exec_block n P [fr'] (fn_body fd) s3) as [[[sig e2]|?] s4] eqn:E4; [|discriminate].
+  apply exec_block_yields in E4.
+  assert (st_yields s4 <= st_yields s').
+  { destruct sig; [| |inversion H; subst; lia];
+      (eapply mono_yields; [|exact H]; apply B_atom; atom_tac). }
+  lia.
+Qed.
+
+(* a completed event handler *)
+Theorem handle_event_yields fuel P name args s s' :
+  handle_event fuel P name args s = (ODone, s') -> S (st_yields s) <= st_yields s'.
+Proof.
+  unfold handle_event. destruct (find_handler name (p_handlers P)) as [h|]; [|discriminate].
+  unfold bindM at 1.
+  destruct (bind_payload (h_params h) args [] s) as [[fr|?] s1] eqn:E1; [|discriminate].
+  assert (st_yields s <= st_yields s1) by (eapply mono_yields; [|eauto]; apply B_atom; auto with atomdb).
+  unfold bindM.
+  destruct (exec_block fuel P [fr] (h_body h) s1) as [[?|?] s2] eqn:E2; [|discriminate].
+  apply exec_block_yields in E2. intro H'. inversion H'; subst. lia.
+Qed.
